@@ -82,7 +82,7 @@ theorem jq_literal_value_preserving_partial (cap : Nat) (l : Lit) (hw : l.wf) (h
     have h2 : 'E' ∉ l.text := not_mem_text_noexp (by decide) (by decide) (by decide) (by decide) l hw hexp
     simp [h1, h2]
   have hout : formatNumberJqCompat cap l.text = stripInsignificant l.text := by
-    unfold formatNumberJqCompat
+    unfold formatNumberJqCompat formatNumberJqCompatWith
     simp only [he, Bool.not_false, if_true]
   rw [hout, stripInsignificant_text l hw hexp]
   obtain ⟨sign, ip, frac, exp⟩ := l
@@ -110,38 +110,44 @@ theorem jq_literal_value_preserving_partial (cap : Nat) (l : Lit) (hw : l.wf) (h
 example : formatNumberJqCompat 100000 "+007.50".toList = "7.50".toList := by decide
 example : formatNumberJqCompat 100000 "-.5".toList = "-0.5".toList := by decide
 
-/-- The full statement for the literal re-formatter: for every literal of the lenient grammar whose
-significant-digit count is at most `cap + 1` and whose exponent arithmetic stays inside `i128`
-(written exponent magnitude + mantissa length `< 2^127`, so neither `parse_literal_exponent` nor the
-`checked_add`/`checked_sub` of the shift saturates), the printed text denotes the same signed value
-and is an RFC 8259 number – for whichever class (`fin` / `zero`) the trusted `core` parser assigns to
-the literal.  Proved as `jq_literal_value_preserving`. -/
-def jq_literal_full_statement : Prop :=
+/-- The statement for `format_number_jq_compat_with` (both variants): for every literal of the lenient
+grammar whose exponent arithmetic stays inside `i128` (written exponent magnitude + mantissa length
+`< 2^127`, so neither `parse_literal_exponent` nor the `checked_add`/`checked_sub` of the shift
+saturates), the printed text denotes the same signed value and is an RFC 8259 number – for whichever
+class (`fin` / `zero`) the trusted `core` parser assigns to the literal.  A bound on the number of
+significant digits (`≤ cap + 1`) is needed only where the code still truncates: the bounded preview
+variant, and literals that parse to zero (`format_near_zero_literal`; truncating those cannot change
+the double they read back to, but it changes the decimal). -/
+def jq_literal_full_statement (preview : Bool) : Prop :=
   ∀ (cap : Nat) (l : Lit), l.wf →
-    ((trimStartZeros (l.ip ++ l.frac.getD [])).length ≤ cap + 1) →
     (∀ m s d, l.exp = some (m, s, d) → (digitsVal d : Int) + ((l.ip ++ l.frac.getD []).length : Int) < 2 ^ 127) →
     (classify l.text = .fin ∨ classify l.text = .zero) →
-    sameVal (parseDec (formatNumberJqCompat cap l.text)) (parseDec l.text) ∧
-    isJsonNumber (formatNumberJqCompat cap l.text) = true
+    ((preview = true ∨ classify l.text = .zero) →
+      (trimStartZeros (l.ip ++ l.frac.getD [])).length ≤ cap + 1) →
+    sameVal (parseDec (formatNumberJqCompatWith cap preview l.text)) (parseDec l.text) ∧
+    isJsonNumber (formatNumberJqCompatWith cap preview l.text) = true
 
-/-- `format_number_jq_compat` is value- and sign-preserving and prints an RFC 8259 number on every
-literal of the lenient grammar (RFC 8259 plus leading `+`, redundant leading zeros, leading `.`), with
-or without exponent part, that has at most `cap + 1` significant digits and a non-saturating
-exponent, whether the double it parses to is finite non-zero (`format_shifted_mantissa` window,
-`try_positive_shifted_plain`, `assemble_scientific`) or zero (`format_near_zero_literal`, both arms).
-Not covered (outside the property: not a finite double / saturated arithmetic): literals that overflow
-`f64` (`format_overflow_literal_mantissa`; helper lemma `formatOverflowLiteralMantissa_good` covers
-it below the `10^9` ceiling), saturated `i128` exponents (`assemble_scientific_from_raw_exponent`),
-more than `cap + 1` digits (`jq_literal_cap_truncates`, finding F-C10-1). -/
-theorem jq_literal_value_preserving : jq_literal_full_statement := by
-  intro cap l hw hcap hfit hcls
+theorem jq_literal_with_value_preserving (preview : Bool) : jq_literal_full_statement preview := by
+  intro cap l hw hfit hcls hcap
   cases hexp : l.exp with
-  | none => exact jq_literal_value_preserving_partial cap l hw hexp
+  | none =>
+    have := jq_literal_value_preserving_partial cap l hw hexp
+    cases preview
+    · exact this
+    · -- the two variants coincide without exponent
+      have he : (l.text.contains 'e' || l.text.contains 'E') = false := by
+        have h1 : 'e' ∉ l.text := not_mem_text_noexp (by decide) (by decide) (by decide) (by decide) l hw hexp
+        have h2 : 'E' ∉ l.text := not_mem_text_noexp (by decide) (by decide) (by decide) (by decide) l hw hexp
+        simp [h1, h2]
+      have h1 : formatNumberJqCompatWith cap true l.text = formatNumberJqCompat cap l.text := by
+        unfold formatNumberJqCompat formatNumberJqCompatWith
+        simp only [he, Bool.not_false, if_true]
+      rw [h1]; exact this
   | some x =>
     obtain ⟨m, s, d⟩ := x
     have hfit' : ExpFits l s d := hfit m s d hexp
     have hne : classify l.text ≠ .err := by rcases hcls with h | h <;> rw [h] <;> simp
-    rw [formatNumberJqCompat_exp cap l hw m s d hexp hne, parseDec_text l hw]
+    rw [formatNumberJqCompat_exp cap preview l hw m s d hexp hne, parseDec_text l hw]
     have he := hw.exp
     rw [hexp] at he
     simp only at he
@@ -150,7 +156,7 @@ theorem jq_literal_value_preserving : jq_literal_full_statement := by
     have hexpv : l.toDec.exp = expOf s d - ((l.frac.getD []).length : Int) := by
       simp [Lit.toDec, hexp, expOf]
     have hcm := classify_text l hw
-    suffices h : Good (formatExpLiteral cap (classify l.text) (l.sign == ['-']) (rawOf l) (s ++ d)) l.toDec from h
+    suffices h : Good (formatExpLiteral cap preview (classify l.text) (l.sign == ['-']) (rawOf l) (s ++ d)) l.toDec from h
     cases hsig : trimStartZeros (l.ip ++ l.frac.getD []) with
     | nil =>
       rw [hsig] at hmant hcm
@@ -169,27 +175,45 @@ theorem jq_literal_value_preserving : jq_literal_full_statement := by
       rw [hd]; exact this
     | cons lead full =>
       have hN := normed_of_lit l hw m s d hexp hfit' lead full hsig
-      have hcap' : full.length ≤ cap := by rw [hsig] at hcap; simpa using hcap
       have hd : l.toDec = ⟨l.sign == ['-'], digitsVal (lead :: full),
           expOf s d + ((full.length : Int) - ((l.frac.getD []).length : Int)) - (full.length : Int)⟩ := by
         have : l.toDec = ⟨l.toDec.neg, l.toDec.mant, l.toDec.exp⟩ := rfl
         rw [this, hmant, hexpv, hsig]
         congr 1; omega
       rw [hd]
-      rcases hcls with h | h <;> rw [h]
-      · exact formatExpLiteral_fin_good hN cap hcap' _
-      · exact formatNearZeroLiteral_good hN cap hcap' _
+      rcases hcls with h | h
+      · rw [h]
+        refine formatExpLiteral_fin_good hN cap preview (fun hp => ?_) _
+        have := hcap (Or.inl hp); rw [hsig] at this; simpa using this
+      · rw [h]
+        have hcap' : full.length ≤ cap := by
+          have := hcap (Or.inr h); rw [hsig] at this; simpa using this
+        exact formatNearZeroLiteral_good hN cap hcap' _
+
+/-- Real output (`format_number_jq_compat`, after the fix of F-C10-1): value- and sign-preserving
+RFC 8259 output for **every** literal of the lenient grammar that parses to a finite non-zero double
+– no bound on the number of digits – and for every literal that parses to zero with at most `cap + 1`
+significant digits; exponent arithmetic non-saturating.  Not covered (outside the property: not a
+finite double / saturated arithmetic): literals that overflow `f64` (helper lemma
+`formatOverflowLiteralMantissa_good` below the `10^9` ceiling), saturated `i128` exponents. -/
+theorem jq_literal_value_preserving : jq_literal_full_statement false :=
+  jq_literal_with_value_preserving false
+
+/-- The bounded preview variant (`format_number_jq_compat_preview`, used by error-message previews)
+under the `≤ cap + 1` significant digits condition, which `jq_literal_cap_truncates` shows necessary. -/
+theorem jq_literal_preview_value_preserving : jq_literal_full_statement true :=
+  jq_literal_with_value_preserving true
 
 example : Lit.wf ⟨[], "12".toList, some "50".toList, some ('e', ['-'], "3".toList)⟩ :=
   { sign := Or.inl rfl, ip := by decide, frac := ⟨by decide, by simp⟩,
     exp := ⟨Or.inl rfl, Or.inr (Or.inl rfl), by decide, by simp⟩ }
 example : Lit.text ⟨[], "12".toList, some "50".toList, some ('e', ['-'], "3".toList)⟩ = "12.50e-3".toList := by decide
 
-/-- The digit-cap side condition of `jq_literal_full_statement` is necessary: with a cap of 2 digits
+/-- The digit-cap side condition of `jq_literal_full_statement` (preview / zero-valued) is necessary: with a cap of 2 digits
 `normalize_extreme_literal_mantissa` turns the five-digit mantissa of `1.2345e-10` into `1.23`
 (exponent −10, digit count 5), and `1.23E-10` is a different value.  (The shipped cap is 100 000;
-the same truncation on a 100 002-digit literal changes the double it reads back to –
-corpus/C10/finding-1.case.) -/
+the same truncation on a 100 002-digit literal changed the double it read back to before the fix of
+F-C10-1 – corpus/C10/finding-1.case.) -/
 theorem jq_literal_cap_truncates :
     ((normalizeExtreme "1.2345".toList "-10".toList (some 2)).toOption.map
         fun n => (n.mantissaStr, n.newExp, n.digitCount)) = some ("1.23".toList, .exact (-10), 5) ∧
